@@ -108,6 +108,14 @@ def rec_de(parent, data):
     return Rec(data["name"], data["size"])
 
 
+def rec_de_consume(parent, data):
+    """A load mapper that *consumes* the entry it is handed (pops every key it understands, the stored id included):
+    what the loader needs from the entry must have been read before the mapper runs."""
+    assert data.pop("type") == "rec", data
+    data.pop("data_id", None)
+    return Rec(data.pop("name"), data.pop("size"))
+
+
 def str_de(parent, data):
     """Callback for string trees whose entries are dicts ({'str':..., 'data_id':...})."""
     return data["str"]
@@ -244,6 +252,12 @@ _fam("typedcb", new_tree=lambda: TypedTree("T"), load_cls=TypedTree, typed=True,
 _fam("rec", new_tree=lambda: Tree("T"), load_cls=Tree, typed=False, mk=mk_rec, save_mapper=rec_ser, load_mapper=rec_de,
      key_custom={"name": "n", "type": "t", "data_id": "D"},
      value_custom=lambda L: {"custom": {"type": ["other", "rec"], "name": _vals(L), "size": [0] + sorted({_size_of(x) for x in L})}}, style="callback mappers")
+_fam("recpop", new_tree=lambda: Tree("T"), load_cls=Tree, typed=False, mk=mk_rec, save_mapper=rec_ser, load_mapper=rec_de_consume,
+     key_custom={"name": "n", "type": "t", "data_id": "D"},
+     value_custom=lambda L: {"custom": {"type": ["other", "rec"], "name": _vals(L)}}, style="callback mappers, the load mapper consumes its entry")
+_fam("recpoptyped", new_tree=lambda: TypedTree("T"), load_cls=TypedTree, typed=True, mk=mk_rec, save_mapper=rec_ser, load_mapper=rec_de_consume,
+     key_custom={"name": "n", "type": "t", "kind": "K"},
+     value_custom=lambda L: {"custom": {"kind": ["k2", "zz", "k1"], "type": ["other", "rec"]}}, style="callback mappers, the load mapper consumes its entry")
 _fam("rectyped", new_tree=lambda: TypedTree("T"), load_cls=TypedTree, typed=True, mk=mk_rec, save_mapper=rec_ser, load_mapper=rec_de,
      key_custom={"name": "n", "type": "t", "kind": "K"},
      value_custom=lambda L: {"custom": {"kind": ["k2", "zz", "k1"], "type": ["other", "rec"]}, "custom_nokind": {"name": _vals(L)}}, style="callback mappers")
@@ -625,6 +639,8 @@ def case_list(tier: str):
     out += [("rec", s) for s in gen.plain_specs(N - 1)]
     out += [("rec", s) for s in idclone_specs(N - 1)]
     out += [("rectyped", s) for s in gen.typed_specs(N - 1)]
+    out += [("recpop", s) for s in gen.plain_specs(N - 2)] + [("recpop", s) for s in idclone_specs(N - 1, ids=("id7", 0))]
+    out += [("recpoptyped", s) for s in idclone_specs(N - 2, typed=True)]
     out += [("dw", s) for s in gen.plain_specs(N - 1)]
     out += [("dw", s) for s in gen.explicit_id_specs(2)]
     out += [("derived", s) for s in gen.plain_specs(N - 1)]
